@@ -105,7 +105,133 @@ theorem granularity_checkpoints (h0 : List Nat) (g0 : Nat → Author) (ops ops' 
 example : edits [.humanCheckpoint, .aiEdit 7 [1, 2, 10, 3], .humanCheckpoint, .humanCheckpoint, .humanEdit [1, 2, 10, 11, 3]]
     = edits [.aiEdit 7 [1, 2, 10, 3], .humanEdit [1, 2, 10, 11, 3], .humanCheckpoint] := by decide
 
+/-! ## 3. One agent edit reported as two consecutive checkpoints of the same session -/
+
+/-- `a` simulates `b`: same working tree, and on every id `b` knows the two ghosts agree (`a` may
+    know more ids: the intermediate lines of a split edit that did not survive it) -/
+def Sim (a b : Spec) : Prop :=
+  a.st.work = b.st.work ∧ ∀ y ∈ b.seen, y ∈ a.seen ∧ a.g y = b.g y
+
+theorem validOps_append (sp : Spec) (a b : List Op) (h : ValidOps sp (a ++ b)) :
+    ValidOps sp a ∧ ValidOps (specRun sp a) b := by
+  induction a generalizing sp with
+  | nil => exact ⟨trivial, h⟩
+  | cons op a ih =>
+    obtain ⟨h1, h2⟩ := h
+    obtain ⟨i1, i2⟩ := ih (specStep sp op) h2
+    exact ⟨⟨h1, i1⟩, i2⟩
+
+theorem specRun_append (sp : Spec) (a b : List Op) : specRun sp (a ++ b) = specRun (specRun sp a) b := by
+  simp [specRun, List.foldl_append]
+
+theorem sim_step (a b : Spec) (op : Op) (h : Sim a b) (hb : Inv b) (va : ValidOp a op) (vb : ValidOp b op) :
+    Sim (specStep a op) (specStep b op) := by
+  obtain ⟨hw, hg⟩ := h
+  have credit_sim : ∀ (ys : List Nat) (who : Author), ValidEdit a ys →
+      ∀ y ∈ b.seen ++ ys, y ∈ a.seen ++ ys ∧ credit a ys who y = credit b ys who y := by
+    intro ys who hva y hy
+    rcases List.mem_append.1 hy with hs | hys
+    · obtain ⟨h1, h2⟩ := hg y hs
+      exact ⟨List.mem_append_left _ h1, by simp [credit, h1, hs, h2]⟩
+    · refine ⟨List.mem_append_right _ hys, ?_⟩
+      by_cases hsb : y ∈ b.seen
+      · obtain ⟨h1, h2⟩ := hg y hsb
+        simp [credit, h1, hsb, h2]
+      · -- fresh for `b`: then fresh for `a` too, else `a`'s edit would resurrect a dead id
+        have hsa : y ∉ a.seen := by
+          intro hsa
+          have : y ∈ a.st.work := hva.2 y hys hsa
+          rw [hw] at this
+          exact hsb (hb.workSeen y this)
+        simp [credit, hsa, hsb, hys]
+  cases op with
+  | humanEdit ys =>
+    exact ⟨rfl, credit_sim ys none va⟩
+  | aiEdit s ys =>
+    refine ⟨?_, credit_sim ys (some s) va⟩
+    simp only [specStep, step]
+    rw [(checkpoint_fields _ _).1, (checkpoint_fields _ _).1]
+  | humanCheckpoint =>
+    refine ⟨?_, hg⟩
+    simp only [specStep, step]
+    rw [(checkpoint_fields _ _).1, (checkpoint_fields _ _).1]; exact hw
+  | stageAll => exact absurd va (by simp [ValidOp])
+  | stage ys => exact absurd va (by simp [ValidOp])
+  | commit => exact absurd va (by simp [ValidOp])
+
+theorem sim_run (ops : List Op) (a b : Spec) (h : Sim a b) (hb : Inv b) (va : ValidOps a ops) (vb : ValidOps b ops) :
+    Sim (specRun a ops) (specRun b ops) := by
+  induction ops generalizing a b with
+  | nil => exact h
+  | cons op ops ih =>
+    exact ih _ _ (sim_step a b op h hb va.1 vb.1) (specStep_inv b op hb vb.1) va.2 vb.2
+
+/-- **C14: a split agent edit is invisible.** Reporting one edit of session `s` as two consecutive
+    agent edits of the same session (first to an intermediate content `ys1`, then to the final
+    `ys2`) instead of one edit straight to `ys2` — anywhere in a history — ends in the same note. -/
+theorem granularity_split_agent_edit (h0 : List Nat) (g0 : Nat → Author) (hnd : h0.Nodup)
+    (pre post : List Op) (s : Nat) (ys1 ys2 : List Nat)
+    (hv : ValidOps ⟨{ head := h0, index := h0, work := h0 }, g0, h0⟩ (pre ++ ([.aiEdit s ys1, .aiEdit s ys2] ++ post)))
+    (hv' : ValidOps ⟨{ head := h0, index := h0, work := h0 }, g0, h0⟩ (pre ++ ([.aiEdit s ys2] ++ post))) :
+    finalNote h0 g0 (pre ++ ([.aiEdit s ys1, .aiEdit s ys2] ++ post)) =
+      finalNote h0 g0 (pre ++ ([.aiEdit s ys2] ++ post)) := by
+  let sp0 : Spec := ⟨{ head := h0, index := h0, work := h0 }, g0, h0⟩
+  have hinv0 : Inv sp0 :=
+    ⟨rfl, hnd, fun y hy => hy, fun y hy => hy, by intro e he; simp [sp0] at he,
+     by intro y hy hn; exact absurd hy hn⟩
+  obtain ⟨vpre, vrest⟩ := validOps_append sp0 pre _ hv
+  obtain ⟨_, vrest'⟩ := validOps_append sp0 pre _ hv'
+  let sp := specRun sp0 pre
+  have hinv : Inv sp := specRun_inv sp0 pre hinv0 vpre
+  obtain ⟨vmid, vpost⟩ := validOps_append sp [.aiEdit s ys1, .aiEdit s ys2] post vrest
+  obtain ⟨vmid', vpost'⟩ := validOps_append sp [.aiEdit s ys2] post vrest'
+  -- the two states right after the (split) edit
+  have hsim : Sim (specRun sp [.aiEdit s ys1, .aiEdit s ys2]) (specRun sp [.aiEdit s ys2]) := by
+    refine ⟨?_, ?_⟩
+    · simp only [specRun, List.foldl_cons, List.foldl_nil, specStep, step]
+      rw [(checkpoint_fields _ _).1, (checkpoint_fields _ _).1]
+    · intro y hy
+      have hy' : y ∈ sp.seen ++ ys2 := hy
+      simp only [specRun, List.foldl_cons, List.foldl_nil, specStep]
+      rcases List.mem_append.1 hy' with hs | hys
+      · refine ⟨by simp [hs], ?_⟩
+        simp [credit, hs]
+      · refine ⟨by simp [hys], ?_⟩
+        by_cases hs : y ∈ sp.seen
+        · simp [credit, hs]
+        · by_cases h1 : y ∈ ys1 <;> simp [credit, hs, h1, hys]
+  have hinvb : Inv (specRun sp [.aiEdit s ys2]) := specRun_inv sp _ hinv vmid'
+  have hfin := sim_run post _ _ hsim hinvb vpost vpost'
+  have hA := (commit_exact h0 g0 (pre ++ ([.aiEdit s ys1, .aiEdit s ys2] ++ post)) hnd hv).1
+  have hB := (commit_exact h0 g0 (pre ++ ([.aiEdit s ys2] ++ post)) hnd hv').1
+  have hinvB : Inv (specRun sp0 (pre ++ ([.aiEdit s ys2] ++ post))) := specRun_inv sp0 _ hinv0 hv'
+  unfold finalNote
+  rw [hA, hB]
+  congr 1
+  rw [specRun_append, specRun_append, specRun_append sp0 pre, specRun_append (specRun sp0 pre)]
+  obtain ⟨hw, hg⟩ := hfin
+  unfold expectedNote
+  show List.filterMap _ (enum1 (specRun (specRun sp [.aiEdit s ys1, .aiEdit s ys2]) post).st.work) =
+    List.filterMap _ (enum1 (specRun (specRun sp [.aiEdit s ys2]) post).st.work)
+  rw [hw]
+  apply filterMap_congr_mem
+  intro ⟨i, y⟩ hm
+  have hyw : y ∈ (specRun (specRun sp [.aiEdit s ys2]) post).st.work := mem_enum1 _ i y hm
+  have hinvB' : Inv (specRun (specRun sp [.aiEdit s ys2]) post) := specRun_inv _ post hinvb vpost'
+  have hgy := (hg y (hinvB'.workSeen y hyw)).2
+  show (if h0.contains y = true then none
+      else Option.map (fun s => (i, s)) ((specRun (specRun sp [.aiEdit s ys1, .aiEdit s ys2]) post).g y)) =
+    (if h0.contains y = true then none
+      else Option.map (fun s => (i, s)) ((specRun (specRun sp [.aiEdit s ys2]) post).g y))
+  rw [hgy]
+
+/-- non-vacuity: a split edit in the middle of a valid history -/
+example : ValidOps ⟨{ head := [1, 2, 3], index := [1, 2, 3], work := [1, 2, 3] }, fun _ => none, [1, 2, 3]⟩
+    ([.humanEdit [1, 2, 3, 4]] ++ ([.aiEdit 7 [1, 2, 10, 3, 4], .aiEdit 7 [1, 2, 10, 11, 4]] ++ [.humanEdit [1, 2, 10, 11, 4, 5]])) := by
+  simp [ValidOps, ValidOp, ValidEdit, specStep, step, checkpoint, previous, credit, checkpointAttr, lookup]
+
 end GitAi.Sys
 
 #print axioms GitAi.Sys.checkpoint_idempotent
 #print axioms GitAi.Sys.granularity_checkpoints
+#print axioms GitAi.Sys.granularity_split_agent_edit
